@@ -1,5 +1,5 @@
 CONSTANTS
-  Shapes = {"plain", "vec", "option", "map_key", "map_val", "gen_first", "gen_last", "gen_nested_first", "map_key_nested"}
+  Shapes = {"plain", "vec", "option", "map_key", "map_val", "gen_first", "gen_last", "gen_nested_first", "map_key_nested", "qualified_generic", "qualified_generic_nested"}
   Prefixes = {"", "Pre"}
   Forms = {"use_single", "use_group", "qualified"}
 INIT Init
